@@ -10,8 +10,8 @@ from ..machine import GenTask, Pool, end_task, simplify_ops_terms
 PROP = 'C15'
 LEVEL = 'exploration'
 CASES_ARE_COUNTED = True
-TIERS = {'quick': {'runs': 14000, 'budget_s': 45}, 'thorough': {'runs': 1000000, 'budget_s': 900}}
-RULE = ('one run = one seeded history of NEWVAR / PUSH / POP(close|drop|resume) / SAVE(term) on one engine (half of the plans from the template '
+TIERS = {'quick': {'runs': 6000, 'budget_s': 50}, 'thorough': {'runs': 1000000, 'budget_s': 900}}
+RULE = ('one run = one seeded history of NEWVAR / PUSH / POP(close|drop|resume) / SAVE(term) / FAULT (the recursion limit strikes inside get_value or to_python of a 600-deep term; handled) on one engine (half of the plans from the template '
         '"bind X to a term with variables first, bind those variables afterwards in a seeded order, directly or through chains, SAVE X, pop '
         'everything"), optionally followed by a compiled program p(X) whose body builds one ground term by a seeded permutation of unifications, '
         'consumed through the documented collect idiom, findall/3 and assertz. At every event to_python of every pool variable is compared with '
@@ -25,7 +25,7 @@ ASSUMPTIONS = [
 COMPONENTS = {'real': ['yldprolog.engine Variable/Functor get_value and to_python, unify, findall, assert_fact', 'compiler + generated clauses for the program part'],
               'stub': ['consumer holding the open unifications and saved values'],
               'oracle': ['substitution-stack model (ypsim.terms) rendered through the documented to_python mapping']}
-REQUIRED_PROBES = ('save_ground_compound', 'save_outer_older_than_inner', 'read_after_pop', 'program_collect_idiom', 'program_findall', 'program_assert',
+REQUIRED_PROBES = ('fault_recursion_inside_get_value', 'fault_recursion_inside_to_python', 'save_ground_compound', 'save_outer_older_than_inner', 'read_after_pop', 'program_collect_idiom', 'program_findall', 'program_assert',
                    'pop_close', 'pop_drop', 'pop_resume')
 
 
@@ -66,7 +66,11 @@ def gen(seed, tier):
     nv = rng.randrange(2, 7)
     ops = []
     if rng.random() < 0.5:
+        big = rng.random() < 0.3
         target = ground_term(rng, rng.choice((1, 2, 3)))
+        if big:
+            # a large ground value (size-dependent paths: caches for big terms)
+            target = ('f', 'h', (TM.mklist([ground_term(rng, 1) for _ in range(rng.randrange(14, 26))]), target))
         counter = [0]
         eqs = []
         top = decompose(rng, target, counter, eqs, rng.choice((0.5, 0.8, 1.0)))
@@ -84,12 +88,22 @@ def gen(seed, tier):
         ops.append(['SAVE', ['v', 0]])
         for _ in range(rng.randrange(0, 3)):
             ops.append(['SAVE', ['v', rng.randrange(nv)]])
-        for _ in range(rng.randrange(0, len(eqs) + 1)):
+        npop = rng.randrange(0, len(eqs) + 1)
+        for _ in range(npop):
             ops.append(['POP', rng.choice(('close', 'drop', 'resume'))])
+        if npop and rng.random() < 0.6:
+            # bind the variables just released again, to other values, and look at X again: an earlier answer
+            # must not show through (outer binding older than the inner ones, inner ones re-bound on backtracking)
+            for (a, b) in reversed(([eqs[0]] + rest)[-npop:]):
+                if a != ('v', 0):
+                    ops.append(['PUSH', TM.J(a), TM.J(ground_term(rng, 1))])
+            ops.append(['SAVE', ['v', 0]])
     for _ in range(rng.randrange(0, 14)):
         k = rng.random()
         if k < 0.05:
             ops.append(['NEWVAR'])
+        elif k < 0.09:
+            ops.append(['FAULT', rng.choice(('get_value', 'to_python')), rng.choice(('list', 'nest'))])
         elif k < 0.3:
             ops.append(['POP', rng.choice(('close', 'drop', 'resume'))])
         elif k < 0.55:
@@ -123,11 +137,23 @@ def show_op(op):
         return 'PUSH %s = %s' % (TM.show(TM.T(op[1])), TM.show(TM.T(op[2])))
     if op[0] == 'SAVE':
         return 'SAVE %s' % TM.show(TM.T(op[1]))
+    if op[0] == 'FAULT':
+        return 'FAULT recursion limit strikes inside %s of a deep %s (handled by the caller)' % (op[1], op[2])
     return ' '.join(str(x) for x in op)
 
 
 def sample_view(plan):
     return {'pool_variables': plan['nv'], 'history': [show_op(op) for op in plan['ops']], 'program': plan['program']}
+
+
+def _depth():
+    import sys
+    f = sys._getframe(1)
+    n = 0
+    while f is not None:
+        n += 1
+        f = f.f_back
+    return n
 
 
 def raw_has_variable(x, depth=0):
@@ -161,6 +187,13 @@ def execute(plan):
     saved = []          # (value, to_python at save time (model), description)
 
     def check_now(tag):
+        # get_value at every depth (through the observer, which dereferences node by node) vs. the model;
+        # this also covers values for which to_python is not defined (partial lists)
+        got_all, want_all = pool.observe_all(), pool.model_all(s)
+        if got_all != want_all:
+            i = next(k for k, (x, y) in enumerate(zip(got_all, want_all)) if x != y)
+            log.violation('get_value-misses-binding', {'at': tag, 'variable': i, 'engine': TM.show(got_all[i]), 'model': TM.show(want_all[i])})
+            return False
         for i, v in enumerate(pool.vars):
             mt = TM.resolve(('v', i), s)
             if not TM.py_defined(mt):
@@ -197,7 +230,7 @@ def execute(plan):
                 pool.newvar()
                 log.ev('newvar')
             elif kind == 'PUSH':
-                if len(stack) >= 12:
+                if len(stack) >= 90:
                     log.ev('noop')
                     continue
                 t1, t2 = pool.norm(TM.T(op[1])), pool.norm(TM.T(op[2]))
@@ -228,6 +261,29 @@ def execute(plan):
                     break
                 if saved:
                     log.count('read_after_pop')
+            elif kind == 'FAULT':
+                # the interpreter raises RecursionError in the middle of a dereference; the caller handles it.
+                # Nothing about later dereferences may change because of that.
+                import sys
+                deep = yp.atom('end')
+                for _ in range(600):
+                    deep = yp.listpair(yp.atom('e'), deep) if op[2] == 'list' else yp.functor('w', [deep])
+                dv = yp.variable()
+                held_fault = GenTask(unify(dv, deep))
+                held_fault.step()
+                old = sys.getrecursionlimit()
+                raised = False
+                try:
+                    sys.setrecursionlimit(_depth() + 70)
+                    try:
+                        get_value(dv) if op[1] == 'get_value' else to_python(dv)
+                    except RecursionError:
+                        raised = True
+                finally:
+                    sys.setrecursionlimit(old)
+                held_fault.close()
+                log.count('fault_recursion_inside_' + op[1])
+                log.ev('fault', op[1], op[2], raised)
             elif kind == 'SAVE':
                 t = pool.norm(TM.T(op[1]))
                 log.count('cases')
